@@ -11,6 +11,7 @@ sys.path.insert(0, ".")
 from vlib import build
 try:
     print("asan:", build.build_vc_asan())
+    print("asan (compiler, worker):", build.build_asan(("slicec", "vh")))
     pre, env, cwd = build.miri_cmd()
     w = subprocess.run(pre + ["warmup"], stdout=subprocess.PIPE, stderr=subprocess.PIPE, env=env, cwd=cwd)
     print("miri warm-up:", "ok" if b"usage: vc" in w.stderr else w.stderr[-500:])
